@@ -110,6 +110,14 @@ def update (info : List (GVar × Nat × Nat)) (f : Nat) (newf : Nat → Nat → 
     | some (g, d) => if g = f then writeSlots mem e.2.2 e.2.1 (newf d) else mem
     | none => mem) mem
 
+/-- the slot ranges `[ofs, ofs+sz)` the generated `update(f=…)` assigns, in statement order, with the
+derivative order of the source array (`grid_eval` / `grid_jacobian` / `grid_hessian` of `f`):
+one assignment per global variable sourced from `f` — *every* such variable, not one per input. -/
+def updateRanges (info : List (GVar × Nat × Nat)) (f : Nat) : List (Nat × Nat × Nat) :=
+  info.filterMap (fun e => match e.1.src with
+    | some (g, d) => if g = f then some (e.2.2, e.2.2 + e.2.1, d) else none
+    | none => none)
+
 /-- generated `update_params`: `for i in range(sz): self.constants[ofs + i] = values[i]` -/
 def updateParam (mem : Nat → α) (ofs sz : Nat) (values : Nat → α) : Nat → α :=
   (List.range sz).foldl (fun m i => fun s => if s = ofs + i then values i else m s) mem
